@@ -11,9 +11,11 @@
 import itertools, os
 from vlib.proto import hexs, unhex
 from checks import xpcomp as X
+from checks import xpparsecomp
 
 LEAN_TARGETS = ["LyModel.Props.C08"]
 AUDIT = "Audit/C08.lean"
+GENERATED = ["XpConsts"]
 ASSUMPTIONS = [
     "XPath numbers: the engine is parametric in the number type; the driver instantiates IEEE doubles, libyang uses x87 long double — generated numbers "
     "stay on small integers and dyadic fractions where both are exact (DESIGN §3); results are compared in thousandths, NaN/±Inf as tokens",
@@ -264,6 +266,8 @@ def run(cx):
             "random trees x random context nodes x type-directed expressions of fragment X1 (12 axes, name/*/node()/text() tests, nested predicates, "
             "operators, core function library); non-trivial = distinct (tree, context, expression) with a non-error result")
     corpus(cx)
+    # tokenizer / grammar check of lyxp_expr_parse against the Lean lexer and parser; text <-> AST route of the Lean parser / renderer
+    xpparsecomp.run_tokens(cx, extra=xpparsecomp.run_ast_route(cx))
     ntrees, nexpr, depth = cx.n(36, 220), cx.n(140, 400), cx.n(3, 4)
     base = gen_groups(cx, ntrees, nexpr, depth)
     # first obtain node counts so that contexts can be chosen: one load pass
